@@ -86,7 +86,7 @@ fn unchanged(m: &Members, id: ActorId, s: &Spec) {
 
 // ---- member up ---------------------------------------------------------------------------------
 #[kani::proof]
-#[kani::unwind(8)]
+#[kani::unwind(6)]
 fn c18_member_up_step() {
     let (p, q) = (any_spec(), any_spec());
     let mut m = build(&p, &q);
@@ -138,7 +138,7 @@ fn c18_member_up_step() {
 
 // ---- member down -------------------------------------------------------------------------------
 #[kani::proof]
-#[kani::unwind(8)]
+#[kani::unwind(6)]
 fn c18_member_down_step() {
     let (p, q) = (any_spec(), any_spec());
     let mut m = build(&p, &q);
@@ -182,7 +182,7 @@ fn bucket(avg: u64) -> Option<u8> {
     }
 }
 #[kani::proof]
-#[kani::unwind(24)]
+#[kani::unwind(6)]
 fn c18_rtt_sample_sets_ring_of_current_address() {
     let (p, q) = (any_spec(), any_spec());
     let mut m = build(&p, &q);
@@ -238,7 +238,7 @@ fn c18_rtt_sample_sets_ring_of_current_address() {
 
 // ---- priority broadcast targets ----------------------------------------------------------------
 #[kani::proof]
-#[kani::unwind(8)]
+#[kani::unwind(6)]
 fn c18_ring0_targets_same_cluster_ring0_only() {
     let (p, q) = (any_spec(), any_spec());
     let m = build(&p, &q);
@@ -265,7 +265,7 @@ fn c18_ring0_targets_same_cluster_ring0_only() {
 
 // ---- end to end: a renewed identity with a new address keeps getting ring updates ---------------
 #[kani::proof]
-#[kani::unwind(24)]
+#[kani::unwind(6)]
 fn c18_renewed_identity_followed_by_rtt() {
     let mut m = Members::default();
     let (k1, t1) = any_ts();
